@@ -86,7 +86,8 @@ def _plain_stage(c, pool, out):
     orank = rng.sample(ranks, rng.randint(0 if len(c.exprs) >= 1 and rng.random() < 0.2 else 1, nr))
     c.decl[out] = list(orank)
     expr = out + _idx(orank) + " = " + " + ".join(terms)
-    return {"out": out, "ranks": ranks, "kind": "plain", "expr": expr, "inputs": used, "acc": {}}
+    return {"out": out, "ranks": ranks, "kind": "plain", "expr": expr, "inputs": used, "acc": {},
+            "single_product": nterms == 1 and "take(" not in expr}
 
 
 def _affine_stage(c, pool, out):
@@ -142,7 +143,8 @@ def _map_plain(c, st):
     if x < 0.25:
         m, syms = specgen.shape_partitioned_mapping(rng, es, max_part_ranks=1, max_depth=2, well_ordered_p=0.7)
         st["part"] = "shape"
-    elif x < 0.5:
+    elif x < 0.5 and st["single_product"]:
+        # leader/follower partitioning is C03's class: one product term (under a sum the follower of an absent leader fiber is lost)
         m, syms = specgen.occupancy_mapping(rng, es)
         st["part"] = "occupancy" if m else None
         if m is not None:
@@ -247,17 +249,28 @@ def gen_mixed_cascade(rng, n=None, affine_p=0.45, spacetime_p=0.25, pool_size=No
             "pool": pool, "yaml": specgen.yaml_of(c.decl, c.exprs, c.mapping)}
 
 
-def mixed_extents(rng, item, lo=1, hi=4):
-    """extents of every rank; a rank addressed through index arithmetic is made large enough for every access of the cascade"""
+def mixed_extents(rng, item, lo=1, hi=4, cap=9, max_points=300):
+    """extents of every rank; a rank addressed through index arithmetic is made large enough for the accesses of the cascade
+    (up to `cap`: beyond it the access simply falls outside the tensor); no tensor has more than `max_points` points"""
     ranks = []
     for t, rs in item["decl"].items():
         for r in rs:
             if r not in ranks:
                 ranks.append(r)
-    ext = {r: rng.randint(lo, hi) for r in ranks}
-    for _ in range(3):
+    small = set(v for _, terms in item["relations"] for _, v in terms)
+    ext = {r: rng.randint(lo, min(hi, 3) if r in small else hi) for r in ranks}
+    for _ in range(2):
         for big, terms in item["relations"]:
             need = sum(k * (ext[v] - 1) for k, v in terms) + 1
             if ext.get(big, 0) < need:
-                ext[big] = need
+                ext[big] = min(need, cap)
+    for t, rs in item["decl"].items():
+        while rs:
+            n = 1
+            for r in rs:
+                n *= ext[r]
+            if n <= max_points:
+                break
+            r = max(rs, key=lambda x: ext[x])
+            ext[r] -= 1
     return ext
